@@ -56,8 +56,8 @@ func VarintMin(v uint64) []byte {
 // RecordSpec controls how a record is encoded.
 type RecordSpec struct {
 	Values       []Value
-	HdrSizeLen   int   // 0: minimal; else exact varint length
-	SerialLens   []int // per column varint length override (0: minimal)
+	HdrSizeLen   int     // 0: minimal; else exact varint length
+	SerialLens   []int   // per column varint length override (0: minimal)
 	ForceSerials []int64 // per column serial type override (0: automatic); for int widths
 }
 
